@@ -57,6 +57,15 @@ def configs(tier):
     for kind, a in ([("positive", (2, 1)), ("complex", (1, 1)), ("mixed", (1, 1, 1))] if q else
                     [("positive", (2, 2)), ("positive", (3, 2)), ("complex", (1, 1)), ("complex", (2, 1)), ("mixed", (1, 1, 1)), ("mixed", (2, 1, 1))]):
         out.append({"part": "end-to-end", "kind": kind, "arch": list(a)})
+    # the same obligations on objects reached as copies of other objects (copy.deepcopy / pickle round trip)
+    out.append({"part": "energy-grad", "rbm": "binary", "arch": [2, 1], "via": "deepcopy"})
+    out.append({"part": "energy-grad", "rbm": "purification", "arch": [1, 1, 1], "via": "deepcopy"})
+    out.append({"part": "gamma-pi-grad", "arch": [1, 1, 1], "via": "deepcopy"})
+    out.append({"part": "rotated", "kind": "complex", "arch": [1, 1], "basis": "Y", "via": "deepcopy"})
+    out.append({"part": "rotated", "kind": "complex", "arch": [2, 1], "basis": "XZ", "via": "pickle"})
+    out.append({"part": "rotated", "kind": "mixed", "arch": [1, 1, 1], "basis": "X", "via": "deepcopy"})
+    out.append({"part": "end-to-end", "kind": "complex", "arch": [1, 1], "via": "deepcopy"})
+    out.append({"part": "end-to-end", "kind": "mixed", "arch": [1, 1, 1], "via": "deepcopy"})
     out.append({"generic": "every shape"})
     return out
 
@@ -86,8 +95,16 @@ def run_config(ctx, cfg):
     if cfg.get("generic"):
         from contracts import gsets
         return gsets.run(ctx, "C03")
+    from drivers import common as _DC
+    _DC.VIA[0] = cfg.get("via")        # the object under contract is reached as a copy of another one (drivers/common.copied)
+    _DC.SYM_ORIG[0] = True
     return {"energy-grad": _energy_grad, "gamma-pi-grad": _gamma_pi, "rotated": _rotated, "grouping": _grouping,
             "positive-api": _positive_api, "end-to-end": _e2e}[cfg["part"]](ctx, cfg)
+
+
+def _DC_copied(obj):
+    from drivers import common as _DC
+    return _DC.copied(obj)
 
 
 def _c(rows):
@@ -99,7 +116,7 @@ def _energy_grad(ctx, cfg):
     from qucumber.rbm import BinaryRBM, PurificationRBM
     canary = getattr(ctx, "canary", None)
     arch = cfg["arch"]
-    rbm = BinaryRBM(*arch, gpu=False) if cfg["rbm"] == "binary" else PurificationRBM(*arch, gpu=False)
+    rbm = _DC_copied(BinaryRBM(*arch, gpu=False) if cfg["rbm"] == "binary" else PurificationRBM(*arch, gpu=False))
     N.symbolize(rbm, "am")
     lay = layout(rbm)
     if canary == "spec-layout-biases-swapped":
